@@ -160,6 +160,12 @@ def check_basis(ctx, b, label, rng):
         want_els = sorted(z for z, el in b['elements'].items() if 'electron_shells' in el)
         if sorted(out['elements']) != want_els:
             ctx.violation(site, 'elements', '%s covers %s, elements with orbital functions are %s' % (fname, sorted(out['elements'])[:8], want_els[:8]), replay)
+        present = {sh['function_type'] for el in out['elements'].values() for sh in el.get('electron_shells', [])}
+        if 'function_types' in out and set(out['function_types']) != present:
+            # "only ... spherical shells": what the auxiliary basis announces about itself (writers choose the harmonic keyword and
+            # refuse ECP types by it) is what it holds, not what the orbital basis held
+            ctx.violation(site, 'function-types', '%s: the auxiliary basis announces function types %s, its shells are %s'
+                          % (fname, sorted(out['function_types']), sorted(present)), replay)
         for z, el in out['elements'].items():
             lmax = max(l for sh in b['elements'][z]['electron_shells'] for l in sh['angular_momentum'])
             ladders = {}
